@@ -1004,3 +1004,76 @@ func stripKinds(l []string) []string {
 	}
 	return res
 }
+
+// RunEmptyTableGate: (*header.Info).Has answers "present and not empty". The
+// glyf table the library writes is empty when every glyph is blank, so the
+// reader must not make "glyf is not empty" a condition for accepting a
+// TrueType font, or it refuses a file the library itself wrote.
+func RunEmptyTableGate(w *World, r *Report) {
+	r.Rule("emptygate: sfnt.Read does not pass the table name \"glyf\" to (*header.Info).Has, whose answer is false for a table of length 0 (checked: Has compares the record's Length with 0): a font whose glyphs are all blank is written with an empty glyf table and has to be read back")
+	has := w.Func("(*header.Info).Has")
+	rd := w.Func("sfnt.Read")
+	if has == nil || rd == nil {
+		r.Fatal("(*header.Info).Has / sfnt.Read do not resolve")
+		return
+	}
+	// does Has treat length 0 as absent?
+	strict := false
+	for _, b := range has.Blocks {
+		for _, in := range b.Instrs {
+			if bo, ok := in.(*ssa.BinOp); ok && (bo.Op == token.EQL || bo.Op == token.NEQ) {
+				if c, ok := bo.Y.(*ssa.Const); ok && c.Value != nil && c.Value.Kind() == constant.Int && c.Int64() == 0 {
+					if fieldName(loadAddr(bo.X)) == "Length" {
+						strict = true
+					}
+					if f, ok := bo.X.(*ssa.Field); ok && fieldNameOfField(f) == "Length" {
+						strict = true
+					}
+				}
+			}
+		}
+	}
+	key := r.MkKey("emptygate", "sfnt.Read", "presence test for glyf")
+	if !strict {
+		r.OK("emptygate", key, w.Pos(has.Pos()), "Has does not look at the length of a table")
+		return
+	}
+	bad := ""
+	for _, b := range rd.Blocks {
+		for _, in := range b.Instrs {
+			call, ok := in.(*ssa.Call)
+			if !ok || call.Common().StaticCallee() != has {
+				continue
+			}
+			// the variadic argument: a slice of a fresh array with constant stores
+			for _, a := range call.Common().Args[1:] {
+				sl, ok := a.(*ssa.Slice)
+				if !ok {
+					continue
+				}
+				al, ok := sl.X.(*ssa.Alloc)
+				if !ok || al.Referrers() == nil {
+					continue
+				}
+				for _, ref := range *al.Referrers() {
+					ia, ok := ref.(*ssa.IndexAddr)
+					if !ok || ia.Referrers() == nil {
+						continue
+					}
+					for _, r2 := range *ia.Referrers() {
+						if st, ok := r2.(*ssa.Store); ok {
+							if c, ok := st.Val.(*ssa.Const); ok && c.Value != nil && c.Value.Kind() == constant.String && constant.StringVal(c.Value) == "glyf" {
+								bad = w.Pos(call.Pos())
+							}
+						}
+					}
+				}
+			}
+		}
+	}
+	if bad != "" {
+		r.Fail("emptygate", key, bad, "sfnt.Read asks (*header.Info).Has for \"glyf\", which is false for an empty table: a TrueType font whose glyphs are all blank is written with a glyf table of length 0 and then rejected (\"no TrueType/OpenType glyph data found\") by the reader", nil)
+	} else {
+		r.OK("emptygate", key, w.Pos(rd.Pos()), "the glyf table may be empty")
+	}
+}
